@@ -36,6 +36,9 @@ def decide(prop: str, tier: str, seed: int) -> int:
     fp = core.property_fingerprint(prop)
     recorded = core.recorded_fingerprints().get(prop)
     ctx.escalate = (recorded is not None and recorded != fp)
+    ctx.changed_files = core.changed_files()
+    if ctx.changed_files:
+        ctx.notes.append('source files changed since the recorded green state: ' + ', '.join(ctx.changed_files[:12]))
     if ctx.escalate:
         ctx.notes.append(f'anchored sources changed since the recorded green state ({recorded} -> {fp}): '
                          'escalated to the thorough input set')
